@@ -147,6 +147,50 @@ func c16Case(c *Ctx, name string, domains bool, links [][]string, rules [][]stri
 			c.Count("iusers_checks", 1)
 		}
 	}
+	// users for a resource (plain model): rows = requests Enforce allows, for non-role names
+	if !domains {
+		gp, _ := e.GetGroupingPolicy()
+		isRole := map[string]bool{}
+		for _, l := range gp {
+			isRole[l[1]] = true
+		}
+		deep := false // some listed implicit role lies beyond the depth limit of g()
+		for _, u := range names {
+			roles, _ := e.GetImplicitRolesForUser(u)
+			for _, r := range roles {
+				if ok, _ := rm.HasLink(u, r); !ok {
+					deep = true
+				}
+			}
+		}
+		for _, res := range []string{"data1", "data2"} {
+			s.Do(c, EOp{Kind: "iusersres", Args: []string{res}})
+			rows, err := e.GetImplicitUsersForResource(res)
+			if err != nil {
+				c.Direct("GetImplicitUsersForResource failed", what())
+				continue
+			}
+			have := map[string]bool{}
+			for _, row := range rows {
+				have[strings.Join(row, "\x01")] = true
+				if isRole[row[0]] {
+					c.Direct("GetImplicitUsersForResource lists a role name as a user", fmt.Sprintf("%s resource=%s row=%v", what(), res, row))
+				}
+				if ok, _ := e.Enforce(row[0], row[1], row[2]); !ok && !deep {
+					c.Direct("GetImplicitUsersForResource lists a row that Enforce denies", fmt.Sprintf("%s resource=%s row=%v", what(), res, row))
+				}
+			}
+			for _, u := range names {
+				if isRole[u] || len(rules) == 0 {
+					continue
+				}
+				if ok, _ := e.Enforce(u, res, "read"); ok && !have[u+"\x01"+res+"\x01read"] {
+					c.Direct("Enforce allows a non-role name on a resource that GetImplicitUsersForResource does not list", fmt.Sprintf("%s resource=%s user=%s rows=%v", what(), res, u, rows))
+				}
+			}
+			c.Count("iusersres_checks", 1)
+		}
+	}
 	c.Evals++
 	if listed > 0 && len(rules) > 0 {
 		c.Nontrivial(what())
@@ -162,7 +206,7 @@ func runC16(c *Ctx) {
 	if c.Thorough() {
 		nodes, maxRules, maxDomLinks = 4, 2, 4
 	}
-	c.Rule = fmt.Sprintf("all role graphs over %d names incl. self-loops and cycles (plain model; every subset of the directed links) and all domain graphs of <= %d links over 3 names x 2 domains, x all policies of <= %d rules over subjects (names + a name outside the graph) x 2 permissions, plus chains of 9..13 names around the depth limit, complete trees and layered DAGs of fan-out 2..3 and depth 2..3, and seeded random graphs of 5..8 names: GetImplicitRolesForUser, GetImplicitUsersForRole, GetImplicitPermissionsForUser, GetImplicitUsersForPermission for every name, domain and permission are compared with the Lean model, the role listing with g() (spec) and the permission listing with enforce() (spec); on the implementation: listed roles = names with HasLink, Enforce = some listed permission grants, implicit users = non-role subjects that Enforce allows; non-trivial = a case with listed implicit roles and rules; distinct = (graph, policy)", nodes, maxDomLinks, maxRules)
+	c.Rule = fmt.Sprintf("all role graphs over %d names incl. self-loops and cycles (plain model; every subset of the directed links) and all domain graphs of <= %d links over 3 names x 2 domains, x all policies of <= %d rules over subjects (names + a name outside the graph) x 2 permissions, plus chains of 9..13 names around the depth limit, complete trees and layered DAGs of fan-out 2..3 and depth 2..3, and seeded random graphs of 5..8 names: GetImplicitRolesForUser, GetImplicitUsersForRole, GetImplicitPermissionsForUser, GetImplicitUsersForPermission, GetImplicitUsersForResource for every name, domain, permission and resource are compared with the Lean model, the role listing with g() (spec) and the permission listing with enforce() (spec); on the implementation: listed roles = names with HasLink, Enforce = some listed permission grants, implicit users = non-role subjects that Enforce allows, resource rows = non-role names that Enforce allows; non-trivial = a case with listed implicit roles and rules; distinct = (graph, policy)", nodes, maxDomLinks, maxRules)
 	all := []string{"a", "b", "c", "d"}[:nodes]
 	// plain: every subset of the directed links (self-loops included)
 	var E [][]string
